@@ -379,6 +379,8 @@ struct StreamSpec {
 	late: bool,
 	/// see `follow`
 	tolerant: bool,
+	/// (callback, seconds) for seek_by: relative to the position the handle reports at that moment
+	seek_bys: Vec<(usize, f64)>,
 }
 
 #[derive(Default)]
@@ -522,6 +524,19 @@ fn stream_case(bytes: Arc<Vec<u8>>, loaded: &StaticSoundData, spec: &StreamSpec)
 			}
 		}
 		sound.on_start_processing();
+		// (issued after this callback's position was published: that is the value the decoder thread will read)
+		for (at, amount) in &spec.seek_bys {
+			if *at == cb && !dec.ended() {
+				// relative to what is being heard (the position the handle reports), not to how far the decoder has read ahead
+				let pos = h.position();
+				let t = ((pos + amount) * sr as f64).round();
+				if t >= 2.0 && (t as usize) + 3 < len {
+					h.seek_by(*amount);
+					let t = t as usize;
+					pending.push(vec![t - 2, t - 1, t, t + 1, t + 2]);
+				}
+			}
+		}
 		sound.process(&mut buf, dt, &info);
 		crate::monitors::bump();
 		if let Err(e) = follow(spec, &loaded.frames, base, len, &buf, &mut cands, &pending, &mut out, (cb * spec.chunk) as u64) {
@@ -646,7 +661,13 @@ fn gen_stream_spec(r: &mut Rng, n: usize, sr: u32) -> StreamSpec {
 		};
 		seeks.push((cb, (k as f64 + 0.25) / sr as f64, vec![k]));
 	}
-	StreamSpec { slice, start, lp, chunk, seeks, max_callbacks, late: false, tolerant: false }
+	let mut seek_bys = vec![];
+	if lp.is_none() && r.chance(0.3) {
+		// one relative seek, at a callback of its own
+		let at = seeks.last().map(|s| s.0 + 1 + r.usize_in(0, 3)).unwrap_or(r.usize_in(1, (len / chunk / 3).max(2)));
+		seek_bys.push((at, r.f64_in(-0.3, 0.6) * len as f64 / sr as f64));
+	}
+	StreamSpec { slice, start, lp, chunk, seeks, max_callbacks, late: false, tolerant: false, seek_bys }
 }
 
 const LATE_SEEK_KEY: &str = "C18.streaming_seek_ignored_after_decoder_reached_end";
@@ -829,7 +850,7 @@ fn asset_case(r: &mut Rng, path: &str, with_seeks: bool, ogg_known: bool) -> Res
 		}
 	}
 	let start = if r.chance(0.5) { 0 } else { r.usize_in(0, n / 2) };
-	let spec = StreamSpec { slice: None, start, lp: None, chunk, seeks, max_callbacks: (n + 3 * 17000) / chunk + 8, late: false, tolerant: false };
+	let spec = StreamSpec { slice: None, start, lp: None, chunk, seeks, max_callbacks: (n + 3 * 17000) / chunk + 8, late: false, tolerant: false, seek_bys: vec![] };
 	let ctxs = format!("[asset {}, start {}, seeks {:?}]", path, start, spec.seeks);
 	match stream_case(bytes.clone(), &loaded, &spec) {
 		Ok(o) => Ok((o, false)),
@@ -901,7 +922,7 @@ pub fn run(ctx: &mut Ctx) {
 					let loaded = StaticSoundData::from_cursor(Cursor::new(ArcBytes(bytes.clone()))).map_err(|e| format!("coded file does not load: {}", e))?;
 					let k = r.usize_in(0, n / 2);
 					let cb = if n > 17000 { (n - 16000) / 512 + 1 } else { r.usize_in(0, 3) };
-					let spec = StreamSpec { slice: None, start: 0, lp: None, chunk: 512, seeks: vec![(cb, (k as f64 + 0.25) / wspec.rate as f64, vec![k])], max_callbacks: (2 * n + 3 * 17000) / 512 + 8, late: true, tolerant: false };
+					let spec = StreamSpec { slice: None, start: 0, lp: None, chunk: 512, seeks: vec![(cb, (k as f64 + 0.25) / wspec.rate as f64, vec![k])], max_callbacks: (2 * n + 3 * 17000) / 512 + 8, late: true, tolerant: false, seek_bys: vec![] };
 					let o = stream_case(bytes, &loaded, &spec).map_err(|e| format!("{} [{:?}, {} frames, {:?}]", e, wspec, n, spec))?;
 					if o.ignored_late_seeks > 0 {
 						return Err(LATE_SEEK_KEY.into());
@@ -918,7 +939,7 @@ pub fn run(ctx: &mut Ctx) {
 					let k = r.usize_in(25000, 38000);
 					let secs = (k as f64 + *r.pick(&[0.75, 0.5, 0.999, 0.0])) / wspec.rate as f64;
 					let st = static_landing(&loaded, secs).ok_or("static landing not observed")?;
-					let spec = StreamSpec { slice: None, start: 0, lp: None, chunk: 1024, seeks: vec![(1, secs, vec![k - 1, k, k + 1])], max_callbacks: (n + 3 * 17000) / 1024 + 8, late: false, tolerant: false };
+					let spec = StreamSpec { slice: None, start: 0, lp: None, chunk: 1024, seeks: vec![(1, secs, vec![k - 1, k, k + 1])], max_callbacks: (n + 3 * 17000) / 1024 + 8, late: false, tolerant: false, seek_bys: vec![] };
 					let o = stream_case(bytes, &loaded, &spec)?;
 					match o.landed.first() {
 						Some(l) if *l == st => Ok(4 << 16),
@@ -1023,7 +1044,7 @@ pub fn confirm(key: &str) -> Option<Option<String>> {
 			let (bytes, wspec) = coded_wav(&mut r, n);
 			let bytes = Arc::new(bytes);
 			let loaded = StaticSoundData::from_cursor(Cursor::new(ArcBytes(bytes.clone()))).ok()?;
-			let spec = StreamSpec { slice: None, start: 0, lp: None, chunk: 512, seeks: vec![(10, 100.25 / wspec.rate as f64, vec![100])], max_callbacks: 200, late: true, tolerant: false };
+			let spec = StreamSpec { slice: None, start: 0, lp: None, chunk: 512, seeks: vec![(10, 100.25 / wspec.rate as f64, vec![100])], max_callbacks: 200, late: true, tolerant: false, seek_bys: vec![] };
 			Some(match stream_case(bytes, &loaded, &spec) {
 				Ok(o) if o.ignored_late_seeks > 0 => Some("seek_to issued after the decoder thread ended was ignored".into()),
 				Ok(_) => None,
@@ -1043,7 +1064,7 @@ pub fn confirm(key: &str) -> Option<Option<String>> {
 			let p = "/repo/crates/examples/assets/drums.ogg";
 			let bytes = Arc::new(std::fs::read(p).ok()?);
 			let loaded = StaticSoundData::from_cursor(Cursor::new(ArcBytes(bytes.clone()))).ok()?;
-			let spec = StreamSpec { slice: None, start: 12345, lp: None, chunk: 2048, seeks: vec![], max_callbacks: 20, late: false, tolerant: false };
+			let spec = StreamSpec { slice: None, start: 12345, lp: None, chunk: 2048, seeks: vec![], max_callbacks: 20, late: false, tolerant: false, seek_bys: vec![] };
 			Some(stream_case(bytes, &loaded, &spec).err().map(|e| format!("drums.ogg streamed from start position 12345: {}", e)))
 		}
 		ROUNDING_KEY => {
@@ -1053,7 +1074,7 @@ pub fn confirm(key: &str) -> Option<Option<String>> {
 			let loaded = StaticSoundData::from_cursor(Cursor::new(ArcBytes(bytes.clone()))).ok()?;
 			let secs = 30000.75 / wspec.rate as f64;
 			let st = static_landing(&loaded, secs)?;
-			let spec = StreamSpec { slice: None, start: 0, lp: None, chunk: 1024, seeks: vec![(1, secs, vec![29999, 30000, 30001])], max_callbacks: 80, late: false, tolerant: false };
+			let spec = StreamSpec { slice: None, start: 0, lp: None, chunk: 1024, seeks: vec![(1, secs, vec![29999, 30000, 30001])], max_callbacks: 80, late: false, tolerant: false, seek_bys: vec![] };
 			Some(match stream_case(bytes, &loaded, &spec) {
 				Ok(o) => match o.landed.first() {
 					Some(l) if *l != st => Some(format!("seek_to(30000.75 frames): static lands on {}, streaming on {}", st, l)),
